@@ -35,7 +35,39 @@ static void setup_fs(SimFS &fs, const Plan &p, Rng *clockrng) {
 	fs.mark_preexisting();
 	int err;
 	fs.sys_chdir("/w/t0", err);
+	// F-SYSCALL: call:n:errno[,...]
+	std::string ff = p.gets("fsfaults");
+	if (!ff.empty())
+		for (auto &f : split_ch(ff, ',')) {
+			auto w = split_ch(f, ':');
+			if (w.size() == 3) fs.faults[{w[0], atoi(w[1].c_str())}] = atoi(w[2].c_str());
+		}
+	fs.counters = &g_sim.counters;
 	fs.log.clear();
+}
+
+// the filesystem refuses something during extraction: one system call fails once (F-SYSCALL), or the place an entry
+// wants is taken by an object of another kind (F-PERM family: the refusal is the filesystem's own)
+static void gen_fs_refusals(Rng &rng, Plan &p, const std::string &dir) {
+	if (rng.chance(1, 4)) {
+		static const char *calls[] = {"mkdir", "open", "unlink", "symlink", "chmod", "chown", "fchmod", "fchown", "utime", "fdopen", "mkdir", "open"};
+		static const int errs[] = {EACCES, ENOSPC, EIO, EPERM, ENOENT, EEXIST, EROFS, ENOMEM, ELOOP, ENAMETOOLONG, EINTR, EMFILE, ENOTDIR, EISDIR};
+		p.sets("fsfaults", strf("%s:%d:%d", calls[rng.below(12)], (int) rng.below(rng.chance(1, 2) ? 2 : 6), errs[rng.below(14)]));
+	}
+	if (rng.chance(1, 4) && !p.members.empty()) {
+		const Member &m = p.members[rng.below(p.members.size())];
+		std::string rel = m.gpath + m.gname;
+		while (!rel.empty() && rel.back() == '/') rel.pop_back();
+		if (!rel.empty() && rel.find('\0') == std::string::npos) {
+			FsEnt e;
+			e.path = dir + "/" + rel;
+			e.type = m.kind == 'd' ? 'f' : 'd';   // a file where a directory is wanted, a directory where a file or link is wanted
+			e.mode = e.type == 'd' ? 0755 : 0644;
+			e.data = to_bytes("in the way");
+			e.mtime = 1000000000;
+			p.fs.push_back(e);
+		}
+	}
 }
 
 // ---------------------------------------------------------------- reference reader model
@@ -153,10 +185,11 @@ static ModelVerdict model_check(const Canon &c, const Task &t, const DriveOut &d
 			int exp = cur == NORMAL ? c.V[idx] : 0;
 			if ((o.result != 0) != (exp != 0)) bad(i, "C15.verdict", strf("check returned %d, canonical verdict for this entry is %d", o.result, exp));
 		} else if (o.kind == "extract") {
+			if (!o.result && o.fs_errors > 0) count("probe.extract_refused_by_filesystem");
 			if (cur == START || cur == END) {
 				if (o.result) bad(i, "C15.verdict", "extract succeeded with no current entry");
 			} else if (cur == FAKE) {
-				if (!o.result) bad(i, "C15.verdict", "extract of a re-presented directory reported failure");
+				if (!o.result && o.fs_errors == 0) bad(i, "C15.verdict", "extract of a re-presented directory reported failure although the filesystem refused nothing");
 			} else if (cur == DEFERRED) {
 				const HeaderObs &h = c.H[curfake];
 				if (o.result && !(o.post_type == 'l' && o.post_target == h.target))
@@ -165,7 +198,7 @@ static ModelVerdict model_check(const Canon &c, const Task &t, const DriveOut &d
 				const HeaderObs &h = c.H[idx];
 				if (h.is_dir()) {
 					if (o.result && o.post_type != 'd') bad(i, "C15.extract_result", "directory extract reported success but no directory exists");
-					if (!o.result && o.post_type == 'd') bad(i, "C15.extract_result", "directory extract reported failure but the directory exists");
+					if (!o.result && o.post_type == 'd' && o.fs_errors == 0) bad(i, "C15.extract_result", "directory extract reported failure but the directory exists and the filesystem refused nothing");
 					if (o.result && !o.existed_before && t.policy != LHA_READER_DIR_PLAIN) pending.push_back((size_t) idx);
 				} else if (h.is_link()) {
 					if (dangerous_target(h.target)) {
@@ -233,6 +266,8 @@ struct C15 : Scenario {
 			if (t.kind == "CB_SKIP" && rng.chance(1, 5)) t.skipfail = (int64_t) rng.below(4);
 			p.tasks.push_back(t);
 		}
+		// extraction that meets refusals: the caller carries on, and what the reader presents afterwards must still follow the model
+		if (nt == 1) gen_fs_refusals(rng, p, "/w/t0");
 		if (rng.chance(1, 3)) p.seti("twice", 1);
 		if (nt > 1) {
 			p.seti("sched_seed", (int64_t) rng.below(1u << 30));
@@ -385,8 +420,14 @@ struct C20 : Scenario {
 			// input ending at an arbitrary point (inside a header, inside data): failure paths must release everything too
 			BuiltArchive a = build_archive(p);
 			t.trunc = (int64_t) rng.below(a.bytes.size() + 1);
+		} else if (rng.chance(1, 5)) {
+			// a read error (as opposed to end of input) at an arbitrary point
+			BuiltArchive a = build_archive(p);
+			t.errat = (int64_t) rng.below(a.bytes.size() + 1);
 		}
 		p.tasks.push_back(t);
+		// refusals by the filesystem during extraction: the failure paths release everything as well
+		gen_fs_refusals(rng, p, "/w/t0");
 		return p;
 	}
 	// one evaluation on a fresh filesystem
